@@ -1,20 +1,25 @@
 // C07 — Xml::decode is total and safe; Xml::encode -> Xml::decode preserves the tree.
 //  (1) decode on every string over a 16-symbol character alphabet up to a length bound, on every byte-prefix of every
 //      sequence of 23 markup tokens up to a length bound, on every truncation / 1-edit (2-edit neighbourhood) of a few
-//      documents with prolog, DOCTYPE, comments, PIs, CDATA and references: must return (alarm), ASan silent with the
+//      documents with prolog, DOCTYPE, comments, PIs, CDATA and references: must return (CPU-time limit per work item), ASan silent with the
 //      input's slack poisoned, result null or a tree whose every child(i).parent() is the containing element.
-//  (2) every element tree up to a node bound (tags {a,b}, attribute subsets of {x,y}, values/text over 9 strings) and
+//  (2) every element tree up to a node bound (tags {a,b}, attribute subsets of {x,y}, values/text over 9..15 strings) and
 //      linear chains to depth 12: decode(encode(compact)) == tree modulo merging adjacent text / dropping whitespace-only
 //      text; the same for the indented output when every text node is the sole child of its element.
+//  (3) extension families: numeric character references (every spelling over {x 0 1 8 f F -}, boundary codes), element
+//      nesting / sibling counts far beyond the tree bounds (parametric, iterative oracle), every well-formed name character
+//      in the four name positions, values/texts over a reference-and-whitespace alphabet and over all bytes, attribute
+//      insertion orders, field lengths around the String inline boundary.
 #include <asl/Xml.h>
 #include <signal.h>
+#include <sys/time.h>
 #include "vf.h"
 #include "aslx.h"
 using namespace asl;
 using vf::fmt;
 
 static int C_EVAL, C_DIST, W_NULL, W_TREE, W_LINKS, W_DEEP, W_TEXTCHILD, W_ATTR, W_COMMENT, W_PI, W_DOCTYPE, W_CDATA, W_REF, W_XMLDECL, W_EMPTYEND, W_MULTIBYTE,
-	W_RT_COMPACT, W_RT_INDENT, W_RT_MERGE, W_RT_DROP, W_RT_ESC_TEXT, W_RT_ESC_ATTR, W_RT_DEPTH12, W_RT_NONASCII, W_DUP, W_ENUMTREE, W_ENUMLINKS;
+	W_RT_COMPACT, W_RT_INDENT, W_RT_MERGE, W_RT_DROP, W_RT_DROP_NONEMPTY, W_RT_ESC_TEXT, W_RT_ESC_ATTR, W_RT_DEPTH12, W_RT_NONASCII, W_DUP, W_ENUMTREE, W_ENUMLINKS;
 
 // ---------------------------------------------------------------- observation of an asl tree (public API only)
 struct N {
@@ -28,21 +33,38 @@ static N T(const std::string& t) { N n; n.text = true; n.s = t; return n; }
 static N E(const std::string& t) { N n; n.s = t; return n; }
 
 struct Walk { uint64_t links; int depth; bool text, attr; Walk() : links(0), depth(0), text(false), attr(false) {} };
-// every child's parent() must be the element that contains it (whole tree)
-static bool walk(const Xml& e, int depth, Walk& w, std::string& why, const std::string& path) {
-	if (depth > w.depth) w.depth = depth;
-	if (!e.isText() && e.attribs().length() > 0) w.attr = true;
-	for (int i = 0; i < e.numChildren(); i++) {
-		const Xml& c = e.child(i);
-		std::string cp = path + fmt("/%d", i);
-		if (c.isnull()) { why = "child " + cp + " is a null handle"; return false; }
-		if (c.isText()) w.text = true;
-		w.links++;
-		Xml p = c.parent();
-		if (!(p == e)) { why = "child " + cp + (p.isnull() ? " has no parent()" : " has a parent() that is not the element containing it"); return false; }
-		if (!walk(c, depth + 1, w, why, cp)) return false;
+// every child's parent() must be the element that contains it (whole tree). Iterative (explicit stack of handles), so that the
+// harness itself does not limit the nesting depth; the index path is only spelled out for a failure.
+struct WalkFrame { Xml e; int i; WalkFrame(const Xml& x) : e(x), i(0) {} };
+static bool walk(const Xml& root, Walk& w, std::string& why) {
+	static std::vector<WalkFrame> st;
+	st.clear();
+	st.push_back(WalkFrame(root));
+	bool ok = true;
+	while (ok && !st.empty()) {
+		if ((int)st.size() > w.depth) w.depth = (int)st.size();
+		WalkFrame& f = st.back();
+		if (f.i == 0 && !f.e.isText() && f.e.attribs().length() > 0) w.attr = true;
+		if (f.i >= f.e.numChildren()) { st.pop_back(); continue; }
+		Xml c = f.e.child(f.i++);
+		const char* bad = 0;
+		if (c.isnull()) bad = " is a null handle";
+		else {
+			if (c.isText()) w.text = true;
+			w.links++;
+			Xml p = c.parent();
+			if (!(p == f.e)) bad = p.isnull() ? " has no parent()" : " has a parent() that is not the element containing it";
+		}
+		if (bad) {
+			std::string cp;
+			for (size_t k = 0; k < st.size() && k < 40; k++) cp += fmt("/%d", st[k].i - 1);
+			if (st.size() > 40) cp += fmt("/... (depth %d)", (int)st.size());
+			why = "child " + cp + bad; ok = false; break;
+		}
+		st.push_back(WalkFrame(c)); // invalidates f
 	}
-	return true;
+	st.clear(); // releases the handles: nothing of the tree is kept alive past this call
+	return ok;
 }
 static N observe(const Xml& e) {
 	N n;
@@ -84,6 +106,8 @@ static Xml build(const N& n) {
 // ---------------------------------------------------------------- (1) decode: total, safe, parent links
 static bool contains(const std::string& s, const char* t) { return s.find(t) != std::string::npos; }
 
+static bool g_want_explen = false; // reference families: observe how many bytes the value under test has in the decoded tree
+static int g_last_explen = -1;     // attribute x of the root if present, else the root's first child if it is a text; -1: neither / null
 static void decode_one(const std::string& txt, bool distinct) {
 	static std::string kase;
 	static const char* hx = "0123456789abcdef";
@@ -98,7 +122,15 @@ static void decode_one(const std::string& txt, bool distinct) {
 		vfx::Flush fl(s);
 		Xml r = Xml::decode(s);
 		isnull = !r;
-		if (!r.isnull()) ok = walk(r, 1, w, why, "");
+		if (!r.isnull()) ok = walk(r, w, why);
+		if (g_want_explen) {
+			g_last_explen = -1;
+			if (!isnull && !r.isText()) {
+				if (r.has("x")) g_last_explen = r["x"].length();
+				else if (r.numChildren() > 0 && r.child(0).isText()) g_last_explen = r.child(0).text().length();
+				else if (r.numChildren() == 0) g_last_explen = 0;
+			}
+		}
 	}
 	if (vf::asan_tripped()) { vf::violation("decode_asan", "ASan " + vf::asan_what() + " in Xml::decode(" + vf::jstr(txt) + ")", kase); vf::asan_clear(); }
 	if (!ok) vf::violation("decode_parent", "Xml::decode(" + vf::jstr(txt) + "): " + why, kase);
@@ -120,8 +152,16 @@ static void decode_one(const std::string& txt, bool distinct) {
 	if (contains(txt, "</>")) vf::add(W_EMPTYEND);
 }
 
-// "terminates": a generous per-item alarm (never reached by a terminating decoder: an item is well under a second of work)
-static void on_alarm(int) { vf::cur_sig("no_termination"); _exit(14); }
+// "terminates": a generous limit on the CPU time of one work item (never reached by a terminating decoder: an item is a few
+// CPU-seconds of work at most). ITIMER_PROF counts the CPU time of this worker process only, so a loaded machine cannot
+// trip it; the guard disarms on every way out of the item.
+static void on_limit(int) { vf::cur_sig("no_termination"); _exit(14); }
+static int ITEM_CPU_S = 1200; // C07_ITEMLIMIT: development knob (to watch the limit fire on a looping mutant without waiting 20 minutes)
+struct ItemLimit {
+	explicit ItemLimit(int cpu_s) { set(cpu_s); }
+	~ItemLimit() { set(0); }
+	static void set(int s) { itimerval it; memset(&it, 0, sizeof it); it.it_value.tv_sec = s; setitimer(ITIMER_PROF, &it, 0); }
+};
 
 static const char* CH[] = { "<", ">", "/", "!", "?", "-", "&", ";", "#", "x", "a", "=", "\"", "'", " ", "\xc3\xa9" };
 static const int NCH = 16;
@@ -152,7 +192,7 @@ static bool out_of_time(const char* what) {
 static void char_strings(int minLen, int maxLen) {
 	uint64_t items = (uint64_t)NCH * NCH * NCH;
 	vf::parallel(items, [&](uint64_t pre) {
-		alarm(1200);
+		ItemLimit lim(ITEM_CPU_S);
 		if (out_of_time("char strings")) return;
 		if (pre == 0 && minLen == 0) {
 			decode_one("", true);
@@ -168,13 +208,12 @@ static void char_strings(int minLen, int maxLen) {
 				decode_one(s, true);
 			}
 		}
-		alarm(0);
 	}, 4);
 }
 // the XML declaration skip: "<?xml" followed by every string over the alphabet
 static void xmldecl_strings(int maxLen) {
 	vf::parallel((uint64_t)NCH * NCH, [&](uint64_t pre) {
-		alarm(1200);
+		ItemLimit lim(ITEM_CPU_S);
 		if (out_of_time("xml declaration strings")) return;
 		const std::string head = "<?xml";
 		if (pre == 0) { decode_one(head, true); for (int a = 0; a < NCH; a++) decode_one(head + CH[a], true); }
@@ -187,7 +226,6 @@ static void xmldecl_strings(int maxLen) {
 				decode_one(s, true);
 			}
 		}
-		alarm(0);
 	}, 4);
 }
 // every byte-prefix of every token sequence of at most maxTok tokens = (sequence of k < maxTok tokens) + piece
@@ -205,7 +243,7 @@ static void token_one_prefix(const std::string& p, int charLen) {
 static void token_strings(int minK, int maxK, int charLen) {
 	uint64_t items = maxK < 3 ? 1 : (uint64_t)NTOK * NTOK * NTOK;
 	vf::parallel(items, [&](uint64_t pre) {
-		alarm(1200);
+		ItemLimit lim(ITEM_CPU_S);
 		if (out_of_time("token sequences")) return;
 		if (pre == 0 && minK == 0) { // prefixes of 0, 1, 2 tokens
 			token_one_prefix("", charLen);
@@ -221,7 +259,6 @@ static void token_strings(int minK, int maxK, int charLen) {
 				token_one_prefix(p, charLen);
 			}
 		}
-		alarm(0);
 	}, 2);
 }
 
@@ -230,7 +267,7 @@ static const char* ST[] = { "<a>", "<b>", "</a>", "</b>", "</>", "<a/>", "<b x=\
 static const int NST = 11;
 static void struct_strings(int maxTok) {
 	vf::parallel((uint64_t)NST * NST * NST, [&](uint64_t pre) {
-		alarm(1200);
+		ItemLimit lim(ITEM_CPU_S);
 		if (out_of_time("tag sequences")) return;
 		if (pre == 0) for (int a = 0; a < NST; a++) for (int b = 0; b < NST; b++) decode_one(std::string(ST[a]) + ST[b], true); // single tokens are byte-prefixes of the fine token pass or alphabet strings
 		std::string base = std::string(ST[pre / (NST * NST)]) + ST[pre / NST % NST] + ST[pre % NST], s;
@@ -242,7 +279,6 @@ static void struct_strings(int maxTok) {
 				decode_one(s, true);
 			}
 		}
-		alarm(0);
 	}, 4);
 }
 
@@ -267,7 +303,7 @@ static void template_edits(bool thorough) {
 	for (size_t t = 0; t < tp.size(); t++) for (int p = 0; p <= (int)tp[t].size(); p++) { Job j = { (int)t, p }; jobs.push_back(j); }
 	int reach = thorough ? 12 : 3;
 	vf::parallel(jobs.size(), [&](uint64_t ji) {
-		alarm(1200);
+		ItemLimit lim(ITEM_CPU_S);
 		if (out_of_time("template edits")) return;
 		const std::string& base = tp[jobs[ji].t]; int p1 = jobs[ji].pos;
 		decode_one(base.substr(0, p1), false);
@@ -283,14 +319,13 @@ static void template_edits(bool thorough) {
 					decode_one(s2, false);
 				}
 		}
-		alarm(0);
 	});
 }
 
 // arbitrary bytes: every string of at most maxLen non-NUL bytes; every single byte substituted / inserted at every position of the documents
 static void byte_strings(int maxLen) {
 	vf::parallel(255, [&](uint64_t i) {
-		alarm(1200);
+		ItemLimit lim(ITEM_CPU_S);
 		if (out_of_time("byte strings")) return;
 		std::string s(1, (char)(i + 1));
 		decode_one(s, charSpaceLen(s) < 0);
@@ -299,7 +334,6 @@ static void byte_strings(int maxLen) {
 			decode_one(s2, charSpaceLen(s2) < 0);
 			if (maxLen >= 3) for (int c = 1; c < 256; c++) { std::string s3 = s2 + (char)c; decode_one(s3, charSpaceLen(s3) < 0); }
 		}
-		alarm(0);
 	});
 }
 static void template_bytes() {
@@ -308,22 +342,25 @@ static void template_bytes() {
 	std::vector<Job> jobs;
 	for (size_t t = 0; t < tp.size(); t++) for (int p = 0; p <= (int)tp[t].size(); p++) { Job j = { (int)t, p }; jobs.push_back(j); }
 	vf::parallel(jobs.size(), [&](uint64_t ji) {
-		alarm(1200);
+		ItemLimit lim(ITEM_CPU_S);
 		const std::string& base = tp[jobs[ji].t]; int p = jobs[ji].pos;
 		for (int b = 1; b < 256; b++) {
 			char c[2] = { (char)b, 0 };
 			for (int kind = 0; kind <= 2; kind += 2) { std::string s = base; if (edit(s, p, kind, c)) decode_one(s, false); }
 		}
-		alarm(0);
 	}, 4);
 }
 
 // ---------------------------------------------------------------- (2) round trip
-static const char* VALS[] = { "", "v", "&", "<", ">", "\"", "'", "\xc3\xa9", " v " };
-static const int NV = 9;
+// value / text table. The first NV entries are the original table (chains and the "rtt:" trees index it); the all-shapes pass
+// "rtu:" adds the two non-empty whitespace-only texts (NVB); the full-label pass (stage A) uses all NVA entries: also spellings that
+// look like references or already escaped text
+static const char* VALS[] = { "", "v", "&", "<", ">", "\"", "'", "\xc3\xa9", " v ", " ", "\n", "&amp;", "&#38;", "&lt", "a;" };
+static const int NV = 9, NVB = 11, NVA = 15;
 
 static bool isws(const std::string& s) { for (size_t i = 0; i < s.size(); i++) if (s[i] != ' ' && s[i] != '\n' && s[i] != '\r' && s[i] != '\t') return false; return true; }
 // the two readings of "up to merging adjacent text nodes and dropping whitespace-only text": merge then drop / drop then merge
+static bool g_dropped_nonempty; // set by normal(): a dropped whitespace-only text had at least one byte
 static N normal(const N& n, int order, bool* merged = 0, bool* dropped = 0) {
 	if (n.text) return n;
 	N r; r.s = n.s; r.at = n.at;
@@ -331,14 +368,14 @@ static N normal(const N& n, int order, bool* merged = 0, bool* dropped = 0) {
 	std::vector<N> k;
 	for (size_t i = 0; i < n.k.size(); i++) {
 		if (n.k[i].text) {
-			if (order == 1 && isws(n.k[i].s)) { if (dropped) *dropped = true; continue; }
+			if (order == 1 && isws(n.k[i].s)) { if (dropped) *dropped = true; if (!n.k[i].s.empty()) g_dropped_nonempty = true; continue; }
 			if (!k.empty() && k.back().text) { k.back().s += n.k[i].s; if (merged) *merged = true; }
 			else k.push_back(n.k[i]);
 		}
 		else k.push_back(normal(n.k[i], order, merged, dropped));
 	}
 	for (size_t i = 0; i < k.size(); i++) {
-		if (k[i].text && isws(k[i].s)) { if (dropped) *dropped = true; continue; }
+		if (k[i].text && isws(k[i].s)) { if (dropped) *dropped = true; if (!k[i].s.empty()) g_dropped_nonempty = true; continue; }
 		r.k.push_back(k[i]);
 	}
 	return r;
@@ -392,9 +429,11 @@ static void roundtrip(const N& m, bool distinct, const std::string* tokcase = 0)
 	vf::cur(kase); vf::cur_sig("roundtrip_crash");
 	vf::add(C_EVAL); if (distinct) vf::add(C_DIST);
 	bool merged = false, dropped = false;
+	g_dropped_nonempty = false;
 	N exp0 = normal(m, 0, &merged, &dropped);
 	if (merged) vf::add(W_RT_MERGE);
 	if (dropped) vf::add(W_RT_DROP);
+	if (g_dropped_nonempty) vf::add(W_RT_DROP_NONEMPTY);
 	bool et = false, ea = false, na = false; facts(m, et, ea, na);
 	if (et) vf::add(W_RT_ESC_TEXT);
 	if (ea) vf::add(W_RT_ESC_ATTR);
@@ -412,7 +451,7 @@ static void roundtrip(const N& m, bool distinct, const std::string* tokcase = 0)
 			Xml back = Xml::decode(enc);
 			if (!back) null = true;
 			else {
-				Walk w; linksok = walk(back, 1, w, why, ""); vf::add(W_LINKS, w.links);
+				Walk w; linksok = walk(back, w, why); vf::add(W_LINKS, w.links);
 				exact = same(back, exp0); // exp0 is in normal form: an exact match needs no normalisation of the decoded side
 				if (!exact) got = observe(back);
 			}
@@ -436,14 +475,14 @@ static N elemLabel(int tag, int sub, int vx, int vy) { // sub: bit0 = x, bit1 = 
 	if (sub & 2) e.at.push_back(std::make_pair(std::string("y"), std::string(VALS[vy])));
 	return e;
 }
-// all 200 element labels: tag x (no attr | x=9 | y=9 | x,y=81)
+// all element labels: tag x (no attr | x=NVA | y=NVA | x,y=NVA^2)
 static std::vector<N> allElemLabels() {
 	std::vector<N> l;
 	for (int t = 0; t < 2; t++) {
 		l.push_back(elemLabel(t, 0, 0, 0));
-		for (int v = 0; v < NV; v++) l.push_back(elemLabel(t, 1, v, 0));
-		for (int v = 0; v < NV; v++) l.push_back(elemLabel(t, 2, 0, v));
-		for (int v = 0; v < NV; v++) for (int u = 0; u < NV; u++) l.push_back(elemLabel(t, 3, v, u));
+		for (int v = 0; v < NVA; v++) l.push_back(elemLabel(t, 1, v, 0));
+		for (int v = 0; v < NVA; v++) l.push_back(elemLabel(t, 2, 0, v));
+		for (int v = 0; v < NVA; v++) for (int u = 0; u < NVA; u++) l.push_back(elemLabel(t, 3, v, u));
 	}
 	return l;
 }
@@ -453,10 +492,10 @@ static bool reducedRoot(const N& e) { for (size_t i = 0; i < e.at.size(); i++) i
 static void stageA(int maxNodes) {
 	static std::vector<N> EL = allElemLabels();
 	std::vector<N> NL = EL; // any node: element or text
-	for (int v = 0; v < NV; v++) NL.push_back(T(VALS[v]));
+	for (int v = 0; v < NVA; v++) NL.push_back(T(VALS[v]));
 	size_t ne = EL.size(), nn = NL.size();
 	vf::parallel(ne, [&](uint64_t r) {
-		alarm(1200);
+		ItemLimit lim(ITEM_CPU_S);
 		if (out_of_time("round trip, full labels")) return;
 		roundtrip(EL[r], true);
 		for (size_t c = 0; c < nn; c++) {
@@ -467,63 +506,71 @@ static void stageA(int maxNodes) {
 				if (c < ne) { N t3 = t; t3.k[0].k.push_back(NL[d]); roundtrip(t3, true); } // child and grandchild
 			}
 		}
-		alarm(0);
 	});
 }
-// stage B: every tree shape with minNodes..maxNodes nodes; element labels tag x attribute subset (values rotate through VALS by
-// occurrence), text labels all of VALS. Trees are generated as pre-order token strings: 0..7 open element, 8..16 text, 17 close.
+// stage B: every tree shape with minNodes..maxNodes nodes; element labels tag x attribute subset (values rotate through the first nv
+// entries of VALS by occurrence), text labels the first nv entries of VALS. Trees are generated as pre-order token strings:
+// 0..7 open element, 8..8+nv-1 text, 8+nv close. Case strings: "rtt:" for nv = 9 (original format), "rtu:" for nv = 11.
 struct Gen {
 	int nlabels; // element labels used: 8 = tag x {none, x, y, x+y}; 4 = a, b, a[x], b[x,y]
+	int nv;      // texts used
 	int minNodes, maxNodes; size_t limit; // limit: stop descending at this many tokens (prefix collection); 0 = none
-	std::vector<int> tok; int open, nodes;
+	int needFrom; // > 0: only trees containing a text token >= needFrom are emitted (the others belong to another pass)
+	std::vector<int> tok; int open, nodes, have;
 	std::function<void(const std::vector<int>&, bool)> emit; // (tokens, complete)
+	Gen() : nv(NV), needFrom(0), have(0) {}
 	void rec() {
-		if (open == 0 && nodes > 0) { if (nodes >= minNodes) emit(tok, true); return; }
+		if (open == 0 && nodes > 0) { if (nodes >= minNodes && (!needFrom || have)) emit(tok, true); return; }
 		if (limit && tok.size() >= limit) { emit(tok, false); return; }
-		if (open > 0) { tok.push_back(17); open--; rec(); open++; tok.pop_back(); }
+		if (open > 0) { tok.push_back(8 + nv); open--; rec(); open++; tok.pop_back(); }
 		if (nodes >= maxNodes) return;
 		static const int L4[] = { 0, 1, 2, 7 };
 		for (int li = 0; li < nlabels; li++) { int l = nlabels == 8 ? li : L4[li]; tok.push_back(l); open++; nodes++; rec(); nodes--; open--; tok.pop_back(); }
-		if (open > 0) for (int t = 0; t < NV; t++) { tok.push_back(8 + t); nodes++; rec(); nodes--; tok.pop_back(); }
+		if (open > 0) for (int t = 0; t < nv; t++) { bool nw = needFrom && 8 + t >= needFrom; tok.push_back(8 + t); nodes++; have += nw; rec(); have -= nw; nodes--; tok.pop_back(); }
 	}
 	void start(const std::vector<int>& prefix) {
-		tok = prefix; open = 0; nodes = 0;
-		for (size_t i = 0; i < tok.size(); i++) { if (tok[i] < 8) { open++; nodes++; } else if (tok[i] < 17) nodes++; else open--; }
+		tok = prefix; open = 0; nodes = 0; have = 0;
+		for (size_t i = 0; i < tok.size(); i++) { if (tok[i] < 8) { open++; nodes++; } else if (tok[i] < 8 + nv) { nodes++; if (needFrom && tok[i] >= needFrom) have++; } else open--; }
 		rec();
 	}
 };
-static N fromTokens(const std::vector<int>& tok) {
-	int rot = 0; for (size_t i = 0; i < tok.size(); i++) rot += tok[i] + 1;
+static N fromTokens(const std::vector<int>& tok, int nv) {
+	int rot = 0; for (size_t i = 0; i < tok.size(); i++) rot += (tok[i] >= 8 + nv ? 17 : tok[i]) + 1; // the close token counts as 17 whatever nv is
 	int occ = 0;
 	std::vector<N> st;
 	N root;
 	for (size_t i = 0; i < tok.size(); i++) {
 		int t = tok[i];
-		if (t < 8) { int sub = t >> 1; int vx = (rot + occ) % NV; if (sub & 1) occ++; int vy = (rot + occ) % NV; if (sub & 2) occ++; st.push_back(elemLabel(t & 1, sub, vx, vy)); }
-		else if (t < 17) st.back().k.push_back(T(VALS[t - 8]));
-		else { N e = std::move(st.back()); st.pop_back(); if (st.empty()) root = std::move(e); else st.back().k.push_back(std::move(e)); }
+		if (t < 8) { int sub = t >> 1; int vx = (rot + occ) % nv; if (sub & 1) occ++; int vy = (rot + occ) % nv; if (sub & 2) occ++; st.push_back(elemLabel(t & 1, sub, vx, vy)); }
+		else if (t < 8 + nv) { if (st.empty()) return N(); st.back().k.push_back(T(VALS[t - 8])); }
+		else { if (st.empty()) return N(); N e = std::move(st.back()); st.pop_back(); if (st.empty()) root = std::move(e); else st.back().k.push_back(std::move(e)); }
 	}
 	return root;
 }
 static int c_trees;
-static std::string tokCase(const std::vector<int>& t) { std::string tc = "rtt:"; for (size_t j = 0; j < t.size(); j++) tc += (char)('a' + t[j]); return tc; }
-static int nodesOf(const std::vector<int>& t) { int n = 0; for (size_t i = 0; i < t.size(); i++) if (t[i] < 17) n++; return n; }
-static uint64_t stageB(int minNodes, int maxNodes, int nlabels, int distinctFrom) {
+static std::string tokCase(const std::vector<int>& t, int nv) { std::string tc = nv == NV ? "rtt:" : "rtu:"; for (size_t j = 0; j < t.size(); j++) tc += (char)('a' + t[j]); return tc; }
+static int nodesOf(const std::vector<int>& t, int nv) { int n = 0; for (size_t i = 0; i < t.size(); i++) if (t[i] < 8 + nv) n++; return n; }
+static uint64_t stageB(int minNodes, int maxNodes, int nlabels, int distinctFrom, int nv = NV) {
 	std::vector<std::vector<int> > items; std::vector<char> complete;
-	Gen g; g.nlabels = nlabels; g.minNodes = minNodes; g.maxNodes = maxNodes; g.limit = 4;
+	int needFrom = nv == NV ? 0 : 8 + NV; // the wider text table: only the trees that contain one of the added texts
+	Gen g; g.nlabels = nlabels; g.nv = nv; g.minNodes = minNodes; g.maxNodes = maxNodes; g.limit = 4;
 	g.emit = [&](const std::vector<int>& t, bool c) { items.push_back(t); complete.push_back(c); };
-	g.start(std::vector<int>());
+	g.start(std::vector<int>()); // prefix collection does not filter: needFrom is applied by the workers
+	uint64_t before = vf::get(c_trees);
 	vf::parallel(items.size(), [&](uint64_t i) {
-		alarm(1200);
+		ItemLimit lim(ITEM_CPU_S);
 		if (out_of_time("round trip, all shapes")) return;
-		if (complete[i]) { std::string tc = tokCase(items[i]); roundtrip(fromTokens(items[i]), nodesOf(items[i]) >= distinctFrom, &tc); vf::add(c_trees); return; }
-		Gen w; w.nlabels = nlabels; w.minNodes = minNodes; w.maxNodes = maxNodes; w.limit = 0;
+		if (complete[i]) {
+			bool has = !needFrom; for (size_t j = 0; j < items[i].size(); j++) if (needFrom && items[i][j] >= needFrom && items[i][j] < 8 + nv) has = true;
+			if (!has) return;
+			std::string tc = tokCase(items[i], nv); roundtrip(fromTokens(items[i], nv), nodesOf(items[i], nv) >= distinctFrom, &tc); vf::add(c_trees); return;
+		}
+		Gen w; w.nlabels = nlabels; w.nv = nv; w.minNodes = minNodes; w.maxNodes = maxNodes; w.limit = 0; w.needFrom = needFrom;
 		std::string tc;
-		w.emit = [&](const std::vector<int>& t, bool) { tc.assign("rtt:"); for (size_t j = 0; j < t.size(); j++) tc += (char)('a' + t[j]); roundtrip(fromTokens(t), nodesOf(t) >= distinctFrom, &tc); vf::add(c_trees); };
+		w.emit = [&](const std::vector<int>& t, bool) { tc = tokCase(t, nv); roundtrip(fromTokens(t, nv), nodesOf(t, nv) >= distinctFrom, &tc); vf::add(c_trees); };
 		w.start(items[i]);
-		alarm(0);
 	}, 4);
-	return vf::get(c_trees);
+	return vf::get(c_trees) - before;
 }
 // stage C: linear chains a > b > a > ... to depth 12, leaf none or one text, attributes on every level; plus every truncation of the compact text
 static N chain(int depth, int leaf, int sub, int voff, bool rich) {
@@ -541,7 +588,7 @@ static N chain(int depth, int leaf, int sub, int voff, bool rich) {
 }
 static void stageC(int distinctFromDepth) {
 	vf::parallel(12 * (NV + 1), [&](uint64_t i) {
-		alarm(1200);
+		ItemLimit lim(ITEM_CPU_S);
 		int depth = (int)(i / (NV + 1)) + 1, leaf = (int)(i % (NV + 1));
 		for (int rich = 0; rich < 2; rich++) for (int sub = 0; sub < 4; sub++) for (int voff = 0; voff < (sub ? NV : 1); voff++) {
 			N m = chain(depth, leaf, sub, voff, rich != 0);
@@ -551,13 +598,359 @@ static void stageC(int distinctFromDepth) {
 			{ Xml e = build(m); text = vfx::S(Xml::encode(e, false)); }
 			for (size_t cut = 0; cut <= text.size(); cut++) decode_one(text.substr(0, cut), false);
 		}
-		alarm(0);
 	});
+}
+
+// ---------------------------------------------------------------- (3) extension families
+static std::string rep(const std::string& s, int n) { std::string r; r.reserve(s.size() * (size_t)n); for (int i = 0; i < n; i++) r += s; return r; }
+static std::string brief(const std::string& t) { return t.size() <= 160 ? vf::jstr(t) : vf::jstr(t.substr(0, 60)) + fmt(" ... (%d bytes) ... ", (int)t.size()) + vf::jstr(t.substr(t.size() - 30)); }
+
+// ---- (3a) numeric character references: the expansion buffer char bytes[5] (Xml.cpp CHAR_REF) and the 1/2/3/4-byte branches of utf32toUtf8
+static const char* RCTX[][2] = { { "<a>&#", ";</a>" }, { "<a x=\"&#", ";\"/>" }, { "<a x='&#", ";'/>" } };
+static int W_REFLEN[5], W_REFCASES;
+// decode of one reference spelling in one context; witness: number of bytes the reference expanded to (observed on the decoded tree)
+static void ref_one(int ctx, const std::string& spelling) {
+	std::string txt = std::string(RCTX[ctx][0]) + spelling + RCTX[ctx][1];
+	vf::add(W_REFCASES);
+	decode_one(txt, true);
+	if (g_last_explen >= 0) vf::add(W_REFLEN[std::min(g_last_explen, 4)]);
+}
+static const char* RCH[] = { "x", "0", "1", "8", "f", "F", "-" };
+static const int NRCH = 7;
+static void ref_strings(int maxLen) {
+	g_want_explen = true;
+	vf::parallel((uint64_t)NRCH * NRCH * NRCH, [&](uint64_t pre) {
+		ItemLimit lim(ITEM_CPU_S);
+		if (out_of_time("character references")) return;
+		if (pre == 0) for (int ctx = 0; ctx < 3; ctx++) {
+			ref_one(ctx, "");
+			for (int a = 0; a < NRCH; a++) { ref_one(ctx, RCH[a]); for (int b = 0; b < NRCH; b++) ref_one(ctx, std::string(RCH[a]) + RCH[b]); }
+		}
+		std::string base = std::string(RCH[pre / (NRCH * NRCH)]) + RCH[pre / NRCH % NRCH] + RCH[pre % NRCH], s;
+		for (int len = 3; len <= maxLen; len++) {
+			uint64_t rest = 1; for (int i = 3; i < len; i++) rest *= NRCH;
+			for (uint64_t r = 0; r < rest; r++) {
+				s = base; uint64_t x = r;
+				for (int i = 3; i < len; i++) { s += RCH[x % NRCH]; x /= NRCH; }
+				for (int ctx = 0; ctx < 3; ctx++) ref_one(ctx, s);
+			}
+		}
+	}, 4);
+	g_want_explen = false;
+}
+// boundary codes of every branch of the UTF-8 writer and of the int conversions, in every spelling
+static void ref_boundaries() {
+	static const unsigned long long V[] = { 0, 1, 9, 0x7f, 0x80, 0x7ff, 0x800, 0xd7ff, 0xd800, 0xdfff, 0xfffe, 0xffff, 0x10000, 0x10ffff, 0x110000, 0x1fffff, 0x200000,
+		0x3ffffff, 0x4000000, 0x7fffffff, 0x80000000ULL, 0xffffff00ULL, 0xffffffffULL, 0x100000000ULL, 0x100000041ULL, 0x7fffffffffffffffULL, 0x8000000000000000ULL, 0xffffffffffffffffULL };
+	static const char* F[] = { "%llu", "x%llx", "x%llX", "X%llx", "-%llu", "x-%llx", "+%llu", "x+%llx", "00000000000000000000%llu", "x00000000000000000000%llx", "%llu0000000000", "x%llx00000000", " %llu", "x %llx", "%llug", "x%llxg", "x0x%llx" };
+	std::vector<std::string> sp;
+	for (size_t v = 0; v < sizeof V / sizeof *V; v++) for (size_t f = 0; f < sizeof F / sizeof *F; f++) sp.push_back(fmt(F[f], V[v]));
+	static const char* G[] = { "x", "xg", "x;", "#", "x#", "&", "x&#x41", "<", "x<", "x>", "\"", "'", "\xc3\xa9", "x\xc3\xa9", "99999999999999999999999999999999", "xffffffffffffffffffffffffffffffff" };
+	for (size_t g = 0; g < sizeof G / sizeof *G; g++) sp.push_back(G[g]);
+	g_want_explen = true;
+	vf::parallel(sp.size(), [&](uint64_t i) { ItemLimit lim(ITEM_CPU_S); for (int ctx = 0; ctx < 3; ctx++) ref_one(ctx, sp[i]); }, 8);
+	g_want_explen = false;
+}
+
+// ---- (3b) nesting depth and sibling count. Case strings are parametric ("nest:<family>:<n>"): the inputs are far longer than the
+// crash-attribution slot. All harness code on this path is iterative; what recurses is the library (encode(), node destruction).
+static int NESTMAX = 4096;  // deepest element nesting enumerated (see level_note: beyond it the library's recursion needs more than the default 8 MB stack)
+static int WIDEMAX = 65536; // largest sibling count / open-element count without nesting
+static int W_NEST, W_NEST_D64, W_NEST_DMAX, W_NEST_WMAX, W_NEST_RT, W_NEST_RT_DMAX, W_NEST_NULL;
+enum { NF_CLOSED, NF_OPEN, NF_WIDE, NF_MIXED, NF_EXCESS, NF_ATTR_TEXT, NF_TEXTRUNS, NF_MANYATTR, NF_HALFCLOSED, NF_RT_CHAIN, NF_RT_WIDE, NF_COUNT };
+static bool nest_is_deep(int fam) { return fam == NF_CLOSED || fam == NF_MIXED || fam == NF_EXCESS || fam == NF_ATTR_TEXT || fam == NF_HALFCLOSED || fam == NF_RT_CHAIN; }
+static std::string nest_text(int fam, int n) {
+	switch (fam) {
+	case NF_CLOSED: return rep("<a>", n) + rep("</a>", n);                       // element stack n+1, result nested n deep
+	case NF_OPEN: return rep("<a>", n);                                          // element stack n+1, nothing attached
+	case NF_WIDE: return "<a>" + rep("<b/>", n) + "</a>";                        // n siblings
+	case NF_MIXED: return rep("<a>t", n) + rep("</a>", n);                       // text and an element on every level
+	case NF_EXCESS: return rep("<a>", n) + rep("</a>", n + 1);                   // one end tag more than was opened, after a deep tree was built
+	case NF_ATTR_TEXT: return rep("<b x='&amp;' y=\"1\">", n) + rep("t</b>", n); // attributes on every level, text after the child
+	case NF_TEXTRUNS: return "<a>" + rep("t<!---->", n) + "</a>";                // n text children
+	case NF_MANYATTR: { std::string s = "<a"; for (int i = 0; i < n; i++) s += fmt(" x%d='%d'", (i * 7919) % n, i); return s + "/>"; } // n attributes in scrambled order
+	case NF_HALFCLOSED: return rep("<a>", n) + rep("</a>", n / 2);               // input ends with half of the stack still open
+	}
+	return "";
+}
+static void nest_decode(int fam, int n) {
+	std::string kase = fmt("nest:%d:%d", fam, n);
+	vf::cur(kase); vf::cur_sig("decode_crash");
+	vf::add(C_EVAL); vf::add(C_DIST); vf::add(W_NEST);
+	std::string txt = nest_text(fam, n);
+	String s = vfx::A(txt);
+	vf::asan_clear();
+	bool isnull; Walk w; std::string why; bool ok = true;
+	{
+		vfx::Flush fl(s);
+		Xml r = Xml::decode(s);
+		isnull = !r;
+		if (!r.isnull()) ok = walk(r, w, why);
+	}
+	if (vf::asan_tripped()) { vf::violation("decode_asan", "ASan " + vf::asan_what() + " in Xml::decode(" + brief(txt) + ")", kase); vf::asan_clear(); }
+	if (!ok) vf::violation("decode_parent", "Xml::decode(" + brief(txt) + "): " + why, kase);
+	vf::add(W_LINKS, w.links);
+	if (isnull) { vf::add(W_NULL); vf::add(W_NEST_NULL); return; }
+	vf::add(W_TREE);
+	if (w.depth >= 64) vf::add(W_NEST_D64);
+	if (w.depth >= NESTMAX) vf::add(W_NEST_DMAX);
+	if (w.links >= (uint64_t)WIDEMAX && w.depth <= 3) vf::add(W_NEST_WMAX);
+}
+// round trip of a chain n deep / of an element with n children, built through the public API, compared level by level with the
+// formula that built it (no tree model: nothing in the harness recurses)
+static std::string lvTag(int lv) { return lv & 1 ? "b" : "a:B-c.d1_\xc3\xa9"; }
+static const char* NEST_LEAF = " <&>\xc3\xa9 ";
+static Xml nest_build(int fam, int n) {
+	if (fam == NF_RT_CHAIN) {
+		Xml cur(vfx::A(lvTag(n - 1)));
+		cur.setAttr("x", VALS[(n - 1) % NV]); if ((n - 1) & 1) cur.setAttr("y", VALS[(n + 2) % NV]);
+		cur << XmlText(String(NEST_LEAF));
+		for (int lv = n - 2; lv >= 0; lv--) {
+			Xml e(vfx::A(lvTag(lv)));
+			e.setAttr("x", VALS[lv % NV]); if (lv & 1) e.setAttr("y", VALS[(lv + 3) % NV]);
+			e << cur;
+			cur = e;
+		}
+		return cur;
+	}
+	Xml root("a");
+	for (int i = 0; i < n; i++) {
+		if (i % 3 == 0) { Xml c("b"); c.setAttr("x", String(i)); root << c; }
+		else if (i % 3 == 1) { Xml c("a"); c << XmlText(vfx::A(fmt("%d&", i))); root << c; }
+		else { Xml c("b"); c << Xml("a"); root << c; }
+	}
+	return root;
+}
+static bool strEq(const String& a, const std::string& b) { return a.length() == (int)b.size() && !memcmp(*a, b.data(), b.size()); }
+static bool attrIs(const Xml& e, const char* name, const std::string& v) { return e.has(name) && strEq(e[name], v); }
+static bool nest_matches(const Xml& root, int fam, int n, std::string& why) {
+	if (fam == NF_RT_CHAIN) {
+		Xml cur = root;
+		for (int lv = 0; lv < n; lv++) {
+			if (cur.isText() || !strEq(cur.tag(), lvTag(lv))) { why = fmt("level %d: wrong tag", lv); return false; }
+			if (cur.attribs().length() != ((lv & 1) ? 2 : 1) || !attrIs(cur, "x", VALS[lv % NV]) || ((lv & 1) && !attrIs(cur, "y", VALS[(lv + 3) % NV]))) { why = fmt("level %d: wrong attributes", lv); return false; }
+			if (cur.numChildren() != 1) { why = fmt("level %d: %d children instead of 1", lv, cur.numChildren()); return false; }
+			Xml next = cur.child(0);
+			if (lv == n - 1) { if (!next.isText() || !strEq(next.text(), NEST_LEAF)) { why = "wrong leaf text"; return false; } }
+			else if (next.isText()) { why = fmt("level %d: text instead of the child element", lv); return false; }
+			cur = next;
+		}
+		return true;
+	}
+	if (root.isText() || !strEq(root.tag(), "a") || root.attribs().length() != 0) { why = "wrong root"; return false; }
+	if (root.numChildren() != n) { why = fmt("%d children instead of %d", root.numChildren(), n); return false; }
+	for (int i = 0; i < n; i++) {
+		const Xml& c = root.child(i);
+		bool ok;
+		if (c.isText()) ok = false;
+		else if (i % 3 == 0) ok = strEq(c.tag(), "b") && c.attribs().length() == 1 && attrIs(c, "x", fmt("%d", i)) && c.numChildren() == 0;
+		else if (i % 3 == 1) ok = strEq(c.tag(), "a") && c.attribs().length() == 0 && c.numChildren() == 1 && c.child(0).isText() && strEq(c.child(0).text(), fmt("%d&", i));
+		else ok = strEq(c.tag(), "b") && c.attribs().length() == 0 && c.numChildren() == 1 && !c.child(0).isText() && strEq(c.child(0).tag(), "a") && c.child(0).numChildren() == 0 && c.child(0).attribs().length() == 0;
+		if (!ok) { why = fmt("child %d differs", i); return false; }
+	}
+	return true;
+}
+static void nest_roundtrip(int fam, int n) {
+	std::string kase = fmt("nest:%d:%d", fam, n);
+	vf::cur(kase); vf::cur_sig("roundtrip_crash");
+	vf::add(C_EVAL); vf::add(C_DIST); vf::add(W_NEST); vf::add(W_NEST_RT);
+	if (fam == NF_RT_CHAIN && n >= NESTMAX) vf::add(W_NEST_RT_DMAX);
+	if (fam == NF_RT_WIDE && n >= WIDEMAX) vf::add(W_NEST_WMAX);
+	vf::asan_clear();
+	const char* what = fam == NF_RT_CHAIN ? "chain of depth" : "element with child count";
+	// the indented text of a chain grows with n^2 (one tab per level and line): indented only up to depth 1024 (1 MB)
+	for (int formatted = 0; formatted <= ((fam == NF_RT_CHAIN && n > 1024) ? 0 : 1); formatted++) {
+		const char* mode = formatted ? "indented" : "compact";
+		std::string why, lwhy, text; bool null = false, linksok = true, match = true;
+		{
+			Xml e = nest_build(fam, n);
+			String enc = Xml::encode(e, formatted != 0);
+			vfx::Flush fl(enc);
+			Xml back = Xml::decode(enc);
+			if (!back) null = true;
+			else { Walk w; linksok = walk(back, w, lwhy); vf::add(W_LINKS, w.links); match = nest_matches(back, fam, n, why); }
+			if (null || !match || !linksok) text = vfx::S(enc);
+		}
+		vf::add(formatted ? W_RT_INDENT : W_RT_COMPACT);
+		if (vf::asan_tripped()) { vf::violation("roundtrip_asan", "ASan " + vf::asan_what() + fmt(" in %s encode/decode of the %s %d", mode, what, n), kase); vf::asan_clear(); }
+		if (null) { vf::violation("roundtrip_reject", fmt("Xml::decode returns a null element for the %s output ", mode) + brief(text) + fmt(" of the %s %d", what, n), kase); continue; }
+		if (!linksok) vf::violation("decode_parent", fmt("decoded %s output ", mode) + brief(text) + ": " + lwhy, kase);
+		if (!match) vf::violation(formatted ? "roundtrip_indented" : "roundtrip_compact", fmt("%s output ", mode) + brief(text) + fmt(" of the %s %d decodes to a different tree: ", what, n) + why, kase);
+	}
+}
+static void nest_case(int fam, int n) { if (fam < NF_RT_CHAIN) nest_decode(fam, n); else nest_roundtrip(fam, n); }
+static std::vector<int> nest_sizes(int fam) {
+	std::vector<int> v;
+	for (int n = 1; n <= 70; n++) v.push_back(n);
+	static const int big[] = { 127, 128, 129, 255, 256, 257, 1023, 1024, 1025, 4095, 4096, 16384, 65536 };
+	int lim = nest_is_deep(fam) ? NESTMAX : fam == NF_MANYATTR ? std::min(WIDEMAX, 4096) : WIDEMAX; // n attributes cost n^2 moves in the sorted Map
+	for (size_t i = 0; i < sizeof big / sizeof *big; i++) if (big[i] <= lim) v.push_back(big[i]);
+	if (v.back() != lim && lim > 70) v.push_back(lim);
+	return v;
+}
+static void nesting() {
+	struct Job { int fam, n; };
+	std::vector<Job> jobs;
+	for (int fam = 0; fam < NF_COUNT; fam++) { std::vector<int> sz = nest_sizes(fam); for (size_t i = 0; i < sz.size(); i++) { Job j = { fam, sz[i] }; jobs.push_back(j); } }
+	std::stable_sort(jobs.begin(), jobs.end(), [](const Job& a, const Job& b) { return a.n < b.n; }); // the small ones first: the first reported counterexamples are minimal
+	vf::parallel(jobs.size(), [&](uint64_t i) { ItemLimit lim(ITEM_CPU_S); if (out_of_time("nesting")) return; nest_case(jobs[i].fam, jobs[i].n); });
+}
+
+// ---- (3c) name characters: every well-formed name character (XML 1.0 5th ed. NameStartChar / NameChar, UTF-8 encoded) in the four
+// name positions the decoder tests separately: first / later character of a tag, first / later character of an attribute name
+static bool isNameStart(unsigned c) {
+	return c == ':' || c == '_' || (c >= 'A' && c <= 'Z') || (c >= 'a' && c <= 'z') || (c >= 0xC0 && c <= 0xD6) || (c >= 0xD8 && c <= 0xF6) || (c >= 0xF8 && c <= 0x2FF) ||
+		(c >= 0x370 && c <= 0x37D) || (c >= 0x37F && c <= 0x1FFF) || (c >= 0x200C && c <= 0x200D) || (c >= 0x2070 && c <= 0x218F) || (c >= 0x2C00 && c <= 0x2FEF) ||
+		(c >= 0x3001 && c <= 0xD7FF) || (c >= 0xF900 && c <= 0xFDCF) || (c >= 0xFDF0 && c <= 0xFFFD) || (c >= 0x10000 && c <= 0xEFFFF);
+}
+static bool isNameChar(unsigned c) { return isNameStart(c) || c == '-' || c == '.' || (c >= '0' && c <= '9') || c == 0xB7 || (c >= 0x300 && c <= 0x36F) || (c >= 0x203F && c <= 0x2040); }
+static std::string utf8(unsigned c) {
+	std::string s;
+	if (c < 0x80) s += (char)c;
+	else if (c < 0x800) { s += (char)(0xC0 | c >> 6); s += (char)(0x80 | (c & 63)); }
+	else if (c < 0x10000) { s += (char)(0xE0 | c >> 12); s += (char)(0x80 | (c >> 6 & 63)); s += (char)(0x80 | (c & 63)); }
+	else { s += (char)(0xF0 | c >> 18); s += (char)(0x80 | (c >> 12 & 63)); s += (char)(0x80 | (c >> 6 & 63)); s += (char)(0x80 | (c & 63)); }
+	return s;
+}
+static int W_NAME_START, W_NAME_REST, W_NAME_4BYTE, W_NAME_ILLEGAL;
+static void name_chars(bool thorough) {
+	// quick: every name character of the basic plane plus the first and last code point of every 4-byte lead byte; thorough: all of them
+	std::vector<unsigned> cps;
+	for (unsigned c = 1; c <= 0xEFFFF; c++) {
+		if (!isNameChar(c)) continue;
+		bool edge = c == 0x10000 || c == 0x3FFFF || c == 0x40000 || c == 0x7FFFF || c == 0x80000 || c == 0xBFFFF || c == 0xC0000 || c == 0xEFFFF;
+		if (c < 0x10000 || thorough || edge) cps.push_back(c);
+	}
+	const size_t CH = 64;
+	vf::parallel((cps.size() + CH - 1) / CH, [&](uint64_t it) {
+		ItemLimit lim(ITEM_CPU_S);
+		if (out_of_time("name characters")) return;
+		for (size_t i = it * CH; i < cps.size() && i < (it + 1) * CH; i++) {
+			std::string c = utf8(cps[i]);
+			if (cps[i] >= 0x10000) vf::add(W_NAME_4BYTE);
+			if (isNameStart(cps[i])) {
+				vf::add(W_NAME_START);
+				roundtrip(E(c), c != "a" && c != "b"); // those two are in the tree passes
+				N a = E("a"); a.at.push_back(std::make_pair(c, std::string("v"))); roundtrip(a, c != "x" && c != "y");
+				roundtrip(E(c + "z"), true); // followed by the upper end of the ASCII letters
+			}
+			vf::add(W_NAME_REST);
+			roundtrip(E("a" + c), true);
+			N a = E("a"); a.at.push_back(std::make_pair("a" + c, std::string("v"))); roundtrip(a, true);
+			N b = E("Z" + c + "A"); b.at.push_back(std::make_pair("z" + c + "Z", std::string("v"))); b.k.push_back(T("t")); roundtrip(b, true);
+		}
+	});
+	// every byte (legal or not) in the name positions: decode only
+	vf::parallel(255, [&](uint64_t i) {
+		ItemLimit lim(ITEM_CPU_S);
+		std::string c(1, (char)(i + 1));
+		static const char* P[][2] = { { "<", "/>" }, { "<a", "/>" }, { "<a ", "=\"v\"/>" }, { "<a a", "=\"v\"/>" }, { "</", ">" }, { "<a></a", ">" }, { "<a ", "/>" }, { "<a x", "/>" } };
+		for (size_t k = 0; k < sizeof P / sizeof *P; k++) { decode_one(std::string(P[k][0]) + c + P[k][1], true); vf::add(W_NAME_ILLEGAL); }
+		decode_one("<" + c + "></" + c + ">", true); decode_one("<a" + c + "></a" + c + ">", true);
+	}, 8);
+}
+
+// ---- (3d) values and texts: every string over an alphabet of reference, escape and whitespace symbols, and every byte / byte pair,
+// as the sole text of an element and as an attribute value
+static const char* VCH[] = { "&", ";", "#", "l", "t", "3", "8", "<", ">", "\"", "'", " ", "\n", "\t", "\r", "\xc3\xa9" };
+static const int NVCH = 16;
+static int W_VAL, W_VAL_REFLIKE, W_VAL_CTRL, W_VAL_HIGH;
+static void value_one(const std::string& v, bool distinct) {
+	vf::add(W_VAL);
+	size_t amp = v.find('&'); if (amp != std::string::npos && v.find(';', amp) != std::string::npos) vf::add(W_VAL_REFLIKE);
+	bool ctrl = false, high = false;
+	for (size_t i = 0; i < v.size(); i++) { unsigned char c = v[i]; if (c < 0x20 || c == 0x7f) ctrl = true; if (c >= 0x80) high = true; }
+	if (ctrl) vf::add(W_VAL_CTRL);
+	if (high) vf::add(W_VAL_HIGH);
+	N t = E("a"); t.k.push_back(T(v)); roundtrip(t, distinct);
+	N a = E("a"); a.at.push_back(std::make_pair(std::string("x"), v)); roundtrip(a, distinct);
+}
+static bool inValueTable(const std::string& v) { for (int i = 0; i < NVA; i++) if (v == VALS[i]) return true; return false; } // then both trees are in stage A
+static bool overValueAlphabet(const std::string& v) { // a string of at most 2 bytes that value_strings enumerates
+	if (v == "\xc3\xa9") return true;
+	for (size_t i = 0; i < v.size(); i++) if (!strchr("&;#lt38<>\"' \n\t\r", v[i])) return false;
+	return true;
+}
+static void value_strings(int maxLen) {
+	vf::parallel((uint64_t)NVCH * NVCH, [&](uint64_t pre) {
+		ItemLimit lim(ITEM_CPU_S);
+		if (out_of_time("value strings")) return;
+		if (pre == 0) for (int a = 0; a < NVCH; a++) value_one(VCH[a], !inValueTable(VCH[a])); // "" is in the value table of the tree passes
+		std::string base = std::string(VCH[pre / NVCH]) + VCH[pre % NVCH], s;
+		for (int len = 2; len <= maxLen; len++) {
+			uint64_t rest = 1; for (int i = 2; i < len; i++) rest *= NVCH;
+			for (uint64_t r = 0; r < rest; r++) {
+				s = base; uint64_t x = r;
+				for (int i = 2; i < len; i++) { s += VCH[x % NVCH]; x /= NVCH; }
+				value_one(s, !inValueTable(s));
+			}
+		}
+	}, 2);
+}
+static void value_bytes() {
+	vf::parallel(255, [&](uint64_t i) {
+		ItemLimit lim(ITEM_CPU_S);
+		if (out_of_time("value bytes")) return;
+		std::string s(1, (char)(i + 1));
+		value_one(s, !overValueAlphabet(s));
+		for (int b = 1; b < 256; b++) { std::string s2 = s + (char)b; value_one(s2, !overValueAlphabet(s2)); }
+	});
+}
+
+// ---- (3e) attribute sets: every arrangement of every non-empty subset of five names that are prefixes / case variants of each other,
+// set in that order through setAttr (insertion before, between and after existing keys of the sorted Map), and the same orders
+// written by hand for the decoder (decode: safety and parent links only, the statement does not cover its content)
+static int W_ATTR_ORDERS;
+static void attr_orders() {
+	static const char* NM[] = { "x", "xx", "X", "y", "_" };
+	static const char* VL[] = { "1", "<2>", "", "&amp;", " 5 " };
+	std::vector<std::vector<int> > arr;
+	std::function<void(std::vector<int>&, int)> rec = [&](std::vector<int>& cur, int used) {
+		if (!cur.empty()) arr.push_back(cur);
+		for (int i = 0; i < 5; i++) if (!(used & 1 << i)) { cur.push_back(i); rec(cur, used | 1 << i); cur.pop_back(); }
+	};
+	std::vector<int> cur; rec(cur, 0);
+	vf::parallel(arr.size(), [&](uint64_t i) {
+		ItemLimit lim(ITEM_CPU_S);
+		const std::vector<int>& o = arr[i];
+		vf::add(W_ATTR_ORDERS);
+		N e = E("a");
+		for (size_t k = 0; k < o.size(); k++) e.at.push_back(std::make_pair(std::string(NM[o[k]]), std::string(VL[o[k]])));
+		roundtrip(e, !(o.size() == 1 && o[0] == 3)); // <a y="&amp;amp;"/> is in the full-label pass
+		N e2 = e; e2.k.push_back(T("t")); roundtrip(e2, true);
+		std::string t1 = "<a", t2 = "<a";
+		for (size_t k = 0; k < o.size(); k++) { t1 += std::string(" ") + NM[o[k]] + "=\"" + (o[k] == 1 ? "&lt;2&gt;" : VL[o[k]]) + "\""; t2 += std::string("\n") + NM[o[k]] + " = '" + (o[k] == 1 ? "&lt;2&gt;" : VL[o[k]]) + "' "; }
+		decode_one(t1 + "/>", true); decode_one(t2 + ">t</a>", true);
+		if (o.size() == 2) decode_one(t1 + std::string(" ") + NM[o[0]] + "='again'/>", true); // a repeated name
+	}, 4);
+}
+
+// ---- (3f) field lengths around the inline capacity of asl::String (ASL_STR_SPACE = 16) and the first heap growth steps
+static int W_LEN_CASES, W_LEN_HEAP;
+static void field_lengths() {
+	static const int L[] = { 1, 14, 15, 16, 17, 18, 31, 32, 33, 63, 64, 65, 127, 128, 129 };
+	const int NL = sizeof L / sizeof *L;
+	vf::parallel((uint64_t)NL * 6 * 2, [&](uint64_t i) {
+		ItemLimit lim(ITEM_CPU_S);
+		int len = L[i / 12], field = (int)(i / 2 % 6), var = (int)(i % 2); // field 4 = all four at once, 5 = the tag without attributes (the tag is ended by '>' and '/' instead of a blank)
+		std::string plain, name, special;
+		for (int k = 0; k < len; k++) plain += (char)('a' + k % 26);
+		name = plain; if (var && len >= 3) { name[len - 2] = '\xc3'; name[len - 1] = '\xa9'; } else if (var) name[len - 1] = '_';
+		special = plain; if (var) { special[0] = '&'; special[len - 1] = '<'; if (len > 4) special[len / 2] = '"'; }
+		N e = E(field == 0 || field >= 4 ? name : "a");
+		if (field != 5) e.at.push_back(std::make_pair(field == 1 || field == 4 ? name : std::string("x"), field == 2 || field == 4 ? special : std::string("v")));
+		if (field == 5) roundtrip(e, !(len == 1 && !var)); // empty element
+		e.k.push_back(T(field == 3 || field == 4 ? special : std::string("t")));
+		vf::add(W_LEN_CASES); if (len >= 16) vf::add(W_LEN_HEAP);
+		roundtrip(e, true);
+		N o = E("o"); o.k.push_back(e); o.k.push_back(e); roundtrip(o, true); // the same as a nested, repeated child (indentation in front of it)
+	}, 4);
 }
 
 static void run_case(const std::string& k) {
 	if (k.compare(0, 4, "dec:") == 0) decode_one(vf::unhex(k.substr(4)), true);
-	else if (k.compare(0, 4, "rtt:") == 0) { std::vector<int> t; for (size_t i = 4; i < k.size(); i++) t.push_back(k[i] - 'a'); roundtrip(fromTokens(t), true, &k); }
+	else if (k.compare(0, 4, "rtt:") == 0 || k.compare(0, 4, "rtu:") == 0) { std::vector<int> t; for (size_t i = 4; i < k.size(); i++) t.push_back(k[i] - 'a'); roundtrip(fromTokens(t, k[2] == 't' ? NV : NVB), true, &k); }
+	else if (k.compare(0, 5, "nest:") == 0) { int fam = -1, n = 0; if (sscanf(k.c_str(), "nest:%d:%d", &fam, &n) == 2 && fam >= 0 && fam < NF_COUNT && n > 0) nest_case(fam, n); else { fprintf(stderr, "bad case string\n"); _exit(2); } }
 	else if (k.compare(0, 3, "rt:") == 0) { N n; const char* p = k.c_str() + 3; if (parse(p, n)) roundtrip(n, true); else { fprintf(stderr, "bad case string\n"); _exit(2); } }
 }
 
@@ -574,10 +967,19 @@ int main(int argc, char** argv) {
 	W_RT_COMPACT = vf::counter("w.roundtrip_compact"); W_RT_INDENT = vf::counter("w.roundtrip_indented"); W_RT_MERGE = vf::counter("w.roundtrip_adjacent_text_merged");
 	W_RT_DROP = vf::counter("w.roundtrip_whitespace_text_dropped"); W_RT_ESC_TEXT = vf::counter("w.roundtrip_text_needing_escape"); W_RT_ESC_ATTR = vf::counter("w.roundtrip_attribute_needing_escape");
 	W_RT_DEPTH12 = vf::counter("w.roundtrip_depth_12"); W_RT_NONASCII = vf::counter("w.roundtrip_non_ascii");
+	W_RT_DROP_NONEMPTY = vf::counter("w.roundtrip_nonempty_whitespace_text_dropped");
 	c_trees = vf::counter("roundtrip_shape_trees");
+	W_REFCASES = vf::counter("w.charref_cases");
+	for (int i = 0; i < 5; i++) W_REFLEN[i] = vf::counter(fmt("w.charref_value_decoded_to_%d_bytes", i).c_str());
+	W_NEST = vf::counter("w.nest_cases"); W_NEST_NULL = vf::counter("w.nest_decode_returned_null"); W_NEST_D64 = vf::counter("w.nest_decoded_depth_ge_64");
+	W_NEST_DMAX = vf::counter("w.nest_decoded_depth_ge_max"); W_NEST_WMAX = vf::counter("w.nest_children_ge_max"); W_NEST_RT = vf::counter("w.nest_roundtrips");
+	W_NEST_RT_DMAX = vf::counter("w.nest_roundtrip_depth_ge_max");
+	W_NAME_START = vf::counter("w.name_start_chars"); W_NAME_REST = vf::counter("w.name_chars"); W_NAME_4BYTE = vf::counter("w.name_chars_4_byte"); W_NAME_ILLEGAL = vf::counter("w.name_position_byte_decodes");
+	W_VAL = vf::counter("w.value_cases"); W_VAL_REFLIKE = vf::counter("w.value_looks_like_reference"); W_VAL_CTRL = vf::counter("w.value_with_control_byte"); W_VAL_HIGH = vf::counter("w.value_with_high_byte");
+	W_ATTR_ORDERS = vf::counter("w.attribute_insertion_orders"); W_LEN_CASES = vf::counter("w.field_length_cases"); W_LEN_HEAP = vf::counter("w.field_length_ge_16");
 	mkpieces();
-	signal(SIGALRM, on_alarm);
-	if (vf::opt.replay) { vf::parallel(1, [&](uint64_t) { alarm(600); run_case(vf::opt.kase); }); return vf::finish(); }
+	signal(SIGPROF, on_limit);
+	if (vf::opt.replay) { vf::parallel(1, [&](uint64_t) { ItemLimit lim(600); run_case(vf::opt.kase); }); return vf::finish(); }
 	bool TH = vf::opt.thorough();
 	const char* e; // the C07_* variables are development knobs (smaller bounds for mutation runs); the registered commands do not set them
 	int charLen = (e = getenv("C07_CHARLEN")) ? atoi(e) : TH ? 6 : 5;
@@ -587,6 +989,12 @@ int main(int argc, char** argv) {
 	int structLen = (e = getenv("C07_STRUCTLEN")) ? atoi(e) : TH ? 7 : 6;
 	int shapeNodes = (e = getenv("C07_SHAPENODES")) ? atoi(e) : 5;      // all shapes, 8 element labels
 	int shapeNodes4 = (e = getenv("C07_SHAPENODES4")) ? atoi(e) : TH ? 6 : 5; // all shapes, 4 element labels (only sizes beyond shapeNodes)
+	int refLen = (e = getenv("C07_REFLEN")) ? atoi(e) : TH ? 8 : 6;         // character reference spellings over 7 symbols
+	int valueLen = (e = getenv("C07_VALUELEN")) ? atoi(e) : TH ? 5 : 4;     // values / texts over 16 symbols
+	int wsNodes = (e = getenv("C07_WSNODES")) ? atoi(e) : 5;                // all shapes with the 11-text table (quick: 4 element labels, thorough: 8)
+	int wsLabels = TH ? 8 : 4;
+	if ((e = getenv("C07_ITEMLIMIT"))) ITEM_CPU_S = atoi(e);
+	if ((e = getenv("C07_NESTMAX"))) NESTMAX = atoi(e);                     // experiments only: deeper nesting than the registered bound
 	double t0 = vf::now_s(), t1;
 	// shortest inputs first, so that the first reported counterexamples are minimal
 	char_strings(0, std::min(charLen, 4));
@@ -594,11 +1002,25 @@ int main(int argc, char** argv) {
 	t1 = vf::now_s(); vf::setinfo("t_short_inputs", fmt("%.1f", t1 - t0)); t0 = t1;
 	stageA(fullNodes);
 	t1 = vf::now_s(); vf::setinfo("t_rt_full", fmt("%.1f", t1 - t0)); t0 = t1;
+	ref_boundaries();
+	attr_orders();
+	name_chars(TH);
+	t1 = vf::now_s(); vf::setinfo("t_names", fmt("%.1f", t1 - t0)); t0 = t1;
+	value_bytes();
+	value_strings(valueLen);
+	field_lengths();
+	t1 = vf::now_s(); vf::setinfo("t_values", fmt("%.1f", t1 - t0)); t0 = t1;
+	nesting();
+	t1 = vf::now_s(); vf::setinfo("t_nesting", fmt("%.1f", t1 - t0)); t0 = t1;
 	uint64_t nshape = stageB(3, shapeNodes, 8, fullNodes + 1); // in the thorough tier some 3-node trees are also in stage A: not counted as distinct
-	if (shapeNodes4 > shapeNodes) nshape = stageB(shapeNodes + 1, shapeNodes4, 4, 0);
+	if (shapeNodes4 > shapeNodes) nshape += stageB(shapeNodes + 1, shapeNodes4, 4, 0);
 	t1 = vf::now_s(); vf::setinfo("t_rt_shapes", fmt("%.1f", t1 - t0)); t0 = t1;
+	uint64_t nshapeWs = stageB(3, wsNodes, wsLabels, fullNodes + 1, NVB); // the trees that contain a non-empty whitespace-only text
+	t1 = vf::now_s(); vf::setinfo("t_rt_shapes_ws", fmt("%.1f", t1 - t0)); t0 = t1;
 	stageC(shapeNodes4 + 1);
 	t1 = vf::now_s(); vf::setinfo("t_rt_chains", fmt("%.1f", t1 - t0)); t0 = t1;
+	ref_strings(refLen);
+	t1 = vf::now_s(); vf::setinfo("t_charrefs", fmt("%.1f", t1 - t0)); t0 = t1;
 	template_edits(TH);
 	template_bytes();
 	struct_strings(structLen);
@@ -609,10 +1031,24 @@ int main(int argc, char** argv) {
 	t1 = vf::now_s(); vf::setinfo("t_chars", fmt("%.1f", t1 - t0)); t0 = t1;
 	if (tokLen - 1 >= 3) token_strings(3, tokLen - 1, charLen);
 	t1 = vf::now_s(); vf::setinfo("t_tokens", fmt("%.1f", t1 - t0)); t0 = t1;
-	vf::setinfo("bounds", fmt("{\"tag_sequence_len\": %d, \"byte_len\": %d, \"char_len\": %d, \"token_len\": %d, \"pieces\": %d, \"full_label_nodes\": %d, \"shape_nodes\": %d, \"shape_nodes_4_labels\": %d, \"shape_trees\": %llu}", structLen, byteLen, charLen, tokLen, (int)PIECES.size(), fullNodes, shapeNodes, shapeNodes4, (unsigned long long)nshape));
+	vf::setinfo("bounds", fmt("{\"tag_sequence_len\": %d, \"byte_len\": %d, \"char_len\": %d, \"token_len\": %d, \"pieces\": %d, \"full_label_nodes\": %d, \"shape_nodes\": %d, \"shape_nodes_4_labels\": %d, \"shape_trees\": %llu, \"ws_shape_nodes\": %d, \"ws_shape_labels\": %d, \"ws_shape_trees\": %llu, \"charref_len\": %d, \"value_len\": %d, \"nest_max_depth\": %d, \"nest_max_width\": %d}", structLen, byteLen, charLen, tokLen, (int)PIECES.size(), fullNodes, shapeNodes, shapeNodes4, (unsigned long long)nshape, wsNodes, wsLabels, (unsigned long long)nshapeWs, refLen, valueLen, NESTMAX, WIDEMAX));
 	vf::sample("Xml::decode of every string over {< > / ! ? - & ; # x a = \" ' space \\u00e9} up to the length bound, e.g. \"</>\", \"<a/>\", \"<a a=''>\", \"&#x;<\"");
 	vf::sample("Xml::decode of every byte-prefix of every token sequence, e.g. \"<a x=\\\"&#38;\\\"><!--t--><?p ?>t</a>\" and \"<a x='&#x2\"");
 	vf::sample("round trip of <a x='&' y='\\u00e9'>{'<', <b>{' v '}, '', '>'} (compact) and of <a>{<b x='\"'>{' v '}, <b>{}} (compact and indented)");
 	vf::sample("chain a>b>a>...>b to depth 12 with x,y on every level and a text leaf: compact + indented round trip, decode of every truncation of the compact text");
-	return vf::finish();
+	vf::sample("Xml::decode of \"<a x='&#\" S \";'/>\" for every S over {x 0 1 8 f F -}, e.g. S = x10FFFF, -1, x-8, 88888888; of <a>^4096 </a>^4096 and <a> <b/>^65536 </a>");
+	vf::sample("round trip of <a>{'&#38;'}, <a x='&lt'>{}, <a>{'\\r\\n'}, <a x='\\x01\\xff'>{}, of <\u4e2dz/>, of <a> with attributes set in the order xx, _, x, X, y, and of a chain 4096 deep");
+	// a family that ran but never reached the branch it exists for is a harness error (exit 2), not a pass
+	std::string vacuous;
+	if (!vf::deadline_passed() && vf::nviolations() == 0) {
+		int req[] = { W_NULL, W_TREE, W_RT_MERGE, W_RT_DROP_NONEMPTY, W_RT_DEPTH12, W_REFLEN[0], W_REFLEN[1], W_REFLEN[2], W_REFLEN[3], W_REFLEN[4], W_NEST_NULL, W_NEST_DMAX, W_NEST_WMAX,
+			W_NEST_RT_DMAX, W_NAME_START, W_NAME_REST, W_NAME_4BYTE, W_NAME_ILLEGAL, W_VAL_REFLIKE, W_VAL_CTRL, W_VAL_HIGH, W_ATTR_ORDERS, W_LEN_HEAP };
+		const char* nm[] = { "decode_returned_null", "decode_returned_tree", "roundtrip_adjacent_text_merged", "roundtrip_nonempty_whitespace_text_dropped", "roundtrip_depth_12", "charref 0 bytes", "charref 1 byte", "charref 2 bytes", "charref 3 bytes", "charref 4 bytes",
+			"nest_decode_returned_null", "nest_decoded_depth_ge_max", "nest_children_ge_max", "nest_roundtrip_depth_ge_max", "name_start_chars", "name_chars", "name_chars_4_byte", "name_position_byte_decodes", "value_looks_like_reference", "value_with_control_byte", "value_with_high_byte",
+			"attribute_insertion_orders", "field_length_ge_16" };
+		for (size_t i = 0; i < sizeof req / sizeof *req; i++) if (vf::get(req[i]) == 0) vacuous += std::string(vacuous.empty() ? "" : ", ") + nm[i];
+	}
+	int rc = vf::finish();
+	if (!vacuous.empty()) { fprintf(stderr, "c07_xml: witness counter(s) zero: %s\n", vacuous.c_str()); return 2; }
+	return rc;
 }
